@@ -3,7 +3,7 @@
 From Coq Require Import ZArith List Bool Lia.
 From Coq Require Import String.
 From PB Require Import C03.Model C03.Model2D C03.Proofs C03.Proofs2D C03.Instance
-  C03.Table C03.Instantiate gen.GenC03 C03.TableProofs.
+  C03.Table C03.Instantiate gen.GenC03 C03.TableProofs C03.Raise.
 Import ListNotations.
 Open Scope Z_scope.
 
@@ -59,6 +59,35 @@ Theorem C03_history :
       obs O V P B vander slice pinv basis (fresh O (run O ops (init O x0))) probe.
 Proof. exact history. Qed.
 Print Assumptions C03_history.
+
+(* C03_raise_then_fresh.  A rejected call -- raised in the prologue, on its weights / orders / knots, inside
+   SplineBasis or PSpline after the basis was replaced, or anywhere in the body (this covers a method an optimizer
+   delegated to) -- leaves the object in a state satisfying the invariant, from which ANY later call observes what it
+   observes on a fresh object.  (Configuration attributes -- output dtype, check_finite, sort order -- are constants
+   of the model: C03_table_checked proves no registered method body writes through self at all, and
+   C03_cells_checked pins the attribute set.) *)
+Theorem C03_raise_then_fresh :
+  forall (O : XOps) (V P B : Type) (vander : X O -> bool -> Z -> V) (slice : V -> Z -> V)
+         (pinv : V -> P) (basis : X O -> Z -> Z -> B),
+    (forall (x : X O) (dm : bool) (p q : Z), 0 <= q <= p -> slice (vander x dm p) q = vander x dm q) ->
+    (forall n : Z, 0 <= n -> xsize O (linspace O n) = n) ->
+    (forall n : Z, xunique O (linspace O n) = true) ->
+    (forall n p : Z, 2 <= n -> vander (linspace O n) true p = vander (linspace O n) false p) ->
+    forall (x0 : option (X O)) (ops : list op) (o probe : op),
+      Forall wf_op ops -> wf_op o ->
+      o_err (snd (step O (run O ops (init O x0)) o)) <> None ->
+      let s' := fst (step O (run O ops (init O x0)) o) in
+      Inv O V vander slice s' /\
+      obs O V P B vander slice pinv basis s' probe = obs O V P B vander slice pinv basis (fresh O s') probe.
+Proof. exact raise_then_fresh. Qed.
+Print Assumptions C03_raise_then_fresh.
+
+Theorem C03_raise_then_fresh_2d : forall (x0 z0 : option Z) (ops : list op2) (o probe : op2),
+  o2_err (snd (step2 (run2 ops (init2 x0 z0)) o)) <> None ->
+  let s' := fst (step2 (run2 ops (init2 x0 z0)) o) in
+  Inv2 s' /\ snd (step2 s' probe) = snd (step2 (fresh2 s') probe).
+Proof. exact raise_then_fresh_2d. Qed.
+Print Assumptions C03_raise_then_fresh_2d.
 
 (* C03_solver_setting.  banded_solver is plain configuration: a method call never changes it, and after
    any history the pair (banded, pentapy) a call reads is the one written by the last accepted setter. *)
